@@ -1,20 +1,33 @@
 (* P_SelectMgm.v -- C10 for the MGM and MGM2 models: every value selected lies in the domain.
 
-   For EVERY schedule, every problem instance, every parameter and every random-draw oracle, a
-   value-selection event [EvValue n v _ _] emitted by node n carries a value v of [dom_of d n], and
-   the current value of n is None or a value of [dom_of d n], PROVIDED that for this node n
+   For EVERY schedule, every problem instance, every algorithm setting and every random-draw
+   oracle, a value-selection event [EvValue n v _ _] emitted by node n carries a value v of
+   [dom_of d n], and the current value of n is None or a value of [dom_of d n], PROVIDED that for
+   this node n ([okn d n])
      - the domain is not empty, and
      - the declared initial value, if any, is a member of the domain
    (pyDCOP's Variable constructor enforces the second point).  The hypotheses are per node:
-   nothing is assumed on the other nodes ... except, for MGM2, on the partner whose offers are
-   accepted (see the MGM2 part).
+   nothing is assumed on the other nodes, not even for MGM2 where the value a node moves to in a
+   coordinated move comes from an OFFER message of its partner: the message invariant [Mok2]
+   (offers pair a value of the sender's domain with a value of the receiver's domain, accepting
+   answers carry a value of the offerer's domain) holds unconditionally.
 
-   Remark on the shape of the hypotheses.  [forall n, dom_of d n <> []] is NOT satisfiable:
-   [var_of d n] of an undeclared id is the empty variable, and a schedule may contain [Start n] for
-   any n; an undeclared isolated node that is started "selects" the default value 0 of the model
-   (see [mgm_undeclared_refuted]).  Hence the per-node form, and the corollaries for the declared
-   nodes of a problem all of whose declared variables are well-formed.  [inst_ok] shows that the
-   hypotheses are satisfiable. *)
+   Remark on the shape of the hypotheses.  [forall n, dom_of d n <> []] is NOT satisfiable
+   ([global_nonempty_unsat]): [var_of d n] of an undeclared id is the empty variable, and a
+   schedule may contain [Start n] for any n; an undeclared isolated node that is started "selects"
+   the default value 0 of the model ([mgm_undeclared_refuted], [mgm2_undeclared_refuted]).  Hence
+   the per-node theorems [*_selects_in_domain_node] and their corollaries [*_selects_in_domain]
+   for the declared nodes of a problem all of whose declared variables are well-formed
+   ([inst_okn]).  [inst_ok] shows that the hypotheses are satisfiable and [mgm_ex_selects] that
+   selections do occur.
+
+   Proof: P_SelectNet.net_inv with, for MGM, the node invariant [mJ] (not started, or current
+   value in the domain and, while waiting for gains, pending new value in the domain); for MGM2
+   the node invariant [tJ] (current value, potential value [t_pval], the offerer/partner/offers
+   bookkeeping [tK] that rules out an accepting answer without value, stored offers and the five
+   postponed lists satisfying [Mok2]) and the message invariant [Mok2].  The nested continuations
+   (postponed-message replay, _enter_state with fuel) are handled by lemmas generic in the
+   continuation. *)
 From Coq Require Import ZArith List Bool Lia.
 From PyDcop Require Import Base Net P_SelectNet M_Mgm M_Mgm2.
 
@@ -395,6 +408,22 @@ Proof.
   intros n [<-|[<-|[]]]; (split; [discriminate|]); cbn; intros v H; inversion H; subst; auto.
 Qed.
 
+(* some id is always undeclared, so a global non-emptiness hypothesis would be vacuous *)
+Lemma zlookup_fresh {V} (l : list (Z * V)) n : (forall k, In k (map fst l) -> k < n) -> zlookup n l = None.
+Proof.
+  induction l as [|[k v] l IH]; intros H; [reflexivity|]. unfold zlookup in *. simpl.
+  destruct (n =? k) eqn:Ek.
+  - apply Z.eqb_eq in Ek. specialize (H k (or_introl eq_refl)). lia.
+  - apply IH. intros k' Hk'. apply H. right. exact Hk'.
+Qed.
+Lemma global_nonempty_unsat d : ~ (forall n, dom_of d n <> []).
+Proof.
+  intros H. apply (H (1 + fold_right Z.max 0 (map fst (d_vars d)))).
+  unfold dom_of, var_of. rewrite zlookup_fresh; [reflexivity|].
+  intros k Hk. induction (map fst (d_vars d)) as [|x l IH]; [destruct Hk|].
+  cbn [fold_right]. destruct Hk as [->|Hk]; [lia|]. specialize (IH Hk). lia.
+Qed.
+
 (* the restriction to well-formed nodes is needed: a schedule may start an undeclared id, whose
    variable is the empty one; being isolated it "selects" the default 0 of optimal_cost_value *)
 Example mgm_undeclared_refuted :
@@ -462,9 +491,8 @@ Section Mgm2Node.
   Variable stop thr favor : Z.
   Variable n : node.
   Let D := dom_of d n.
-  Let nb := nbrs d n.
   Let E := mE d n.
-  Let O := fun dm : node * m2msg => Mok2 d n (fst dm) (snd dm).
+  Let Om := fun dm : node * m2msg => Mok2 d n (fst dm) (snd dm).
   Let F := fun sm : Z * m2msg => Mok2 d (fst sm) n (snd sm).
   Let InD := InD d n.
 
@@ -473,7 +501,7 @@ Section Mgm2Node.
   Definition tL (s : m2st) : Prop :=
     match t_pval s with Some v => InD v | None => t_pgain s = 0 /\ t_canmove s = false end.
   Definition tK (s : m2st) : Prop :=
-    t_offerer s = false -> t_partner s = None \/ zlen nb <= zlen (t_offers s).
+    t_offerer s = false -> t_partner s = None \/ zlen (nbrs d n) <= zlen (t_offers s).
   Definition tO (s : m2st) : Prop := Forall F (t_offers s).
   Definition tS (s : m2st) : Prop :=
     Forall F (t_pvalue s) /\ Forall F (t_poffer s) /\ Forall F (t_panswer s)
@@ -513,7 +541,7 @@ Section Mgm2Node.
   Proof. intros H. split; [reflexivity|exact H]. Qed.
 
   (* value_selection2 touches current_value and current_cost only *)
-  Lemma value_selection2_ok s v c : tR s -> InD v -> rok2 tP O E (value_selection2 n s v c).
+  Lemma value_selection2_ok s v c : tR s -> InD v -> rok2 tP Om E (value_selection2 n s v c).
   Proof.
     intros HR Hv. unfold value_selection2. split; [|split]; cbn [fst snd].
     - split; [exists v; split; [reflexivity|exact Hv]|exact HR].
@@ -522,7 +550,7 @@ Section Mgm2Node.
       constructor; [apply E2_value; exact Hv|constructor].
   Qed.
 
-  Lemma send_value2_ok s : tP s -> rok2 tP O E (send_value2 d stop n s).
+  Lemma send_value2_ok s : tP s -> rok2 tP Om E (send_value2 d stop n s).
   Proof.
     intros H. unfold send_value2. cbv zeta.
     destruct (negb (stop =? 0) && (stop <=? t_cycle s + 1)); (split; [exact H|split]); cbn [fst snd].
@@ -533,7 +561,7 @@ Section Mgm2Node.
     - repeat constructor.
   Qed.
 
-  Lemma send_gain2_ok s : tP s -> rok2 tP O E (send_gain2 d n s).
+  Lemma send_gain2_ok s : tP s -> rok2 tP Om E (send_gain2 d n s).
   Proof.
     intros H. unfold send_gain2. split; [exact H|split]; cbn [fst snd]; [|constructor].
     apply Forall_forall. intros [t m] Hin. apply in_map_iff in Hin. destruct Hin as (t' & Heq & _).
@@ -599,7 +627,7 @@ Section Mgm2Node.
 
   Section Handlers2.
     Variable enter : Z -> m2st -> res2.
-    Hypothesis Henter : forall k s, tP s -> rok2 tP O E (enter k s).
+    Hypothesis Henter : forall k s, tP s -> rok2 tP Om E (enter k s).
 
     Lemma clear_agent_P s : tA s -> tS s -> tP (clear_agent s).
     Proof.
@@ -610,16 +638,16 @@ Section Mgm2Node.
       - exact HS.
     Qed.
 
-    Lemma finish_cycle_ok s : tA s -> tS s -> rok2 tP O E (finish_cycle d stop n enter s).
+    Lemma finish_cycle_ok s : tA s -> tS s -> rok2 tP Om E (finish_cycle d stop n enter s).
     Proof.
       intros HA HS. unfold finish_cycle. eapply rok2_andthen; [|apply Henter].
       apply send_value2_ok. apply clear_agent_P; auto.
     Qed.
 
-    Lemma finish_cycle_P s : tP s -> rok2 tP O E (finish_cycle d stop n enter s).
+    Lemma finish_cycle_P s : tP s -> rok2 tP Om E (finish_cycle d stop n enter s).
     Proof. intros (HA & _ & _ & _ & HS). apply finish_cycle_ok; auto. Qed.
 
-    Lemma hvm_ok s : tP s -> rok2 tP O E (handle_value_messages d thr n enter s).
+    Lemma hvm_ok s : tP s -> rok2 tP Om E (handle_value_messages d thr n enter s).
     Proof.
       intros (HA & HL & HK & HO & HS). unfold handle_value_messages. cbv zeta.
       destruct (draw (t_orc (set_t_cost s (Some (local_at d n (view1 n (t_nv s) (cur2 s))))))) as [k o1].
@@ -658,7 +686,7 @@ Section Mgm2Node.
       Unshelve.
       all: apply Forall_forall; intros [t m] Hin; apply in_map_iff in Hin; destruct Hin as (t' & Heq & _);
         match type of Heq with (if ?c then _ else _) = _ => destruct c end; inversion Heq; subst;
-        unfold O; cbn [fst snd Mok2]; intros a b g Hi; [eapply compute_offers_ok; exact Hi|destruct Hi].
+        unfold Om; cbn [fst snd Mok2]; intros a b g Hi; [eapply compute_offers_ok; exact Hi|destruct Hi].
     Qed.
 
     Lemma pval_InD s : tL s -> (t_pgain s <> 0 \/ t_canmove s = true) ->
@@ -667,7 +695,7 @@ Section Mgm2Node.
       unfold tL. destruct (t_pval s) as [v|]; [auto|]. intros [H1 H2] [H|H]; [tauto|congruence].
     Qed.
 
-    Lemma hgm_ok s : tP s -> rok2 tP O E (handle_gain_messages d stop n enter s).
+    Lemma hgm_ok s : tP s -> rok2 tP Om E (handle_gain_messages d stop n enter s).
     Proof.
       intros HP. pose proof HP as (HA & HL & HK & HO & HS). unfold handle_gain_messages. cbv zeta.
       destruct (t_pgain s =? 0) eqn:Eg; [apply finish_cycle_P; exact HP|]. apply Z.eqb_neq in Eg.
@@ -684,7 +712,7 @@ Section Mgm2Node.
         + apply rok2_ret. exact HP.
     Qed.
 
-    Lemma hgo_ok s go : tP s -> rok2 tP O E (handle_go d stop n enter s go).
+    Lemma hgo_ok s go : tP s -> rok2 tP Om E (handle_go d stop n enter s go).
     Proof.
       intros HP. pose proof HP as (HA & HR). pose proof HR as (HL & _). unfold handle_go. cbv zeta.
       eapply rok2_andthen; [|apply finish_cycle_P].
@@ -695,7 +723,7 @@ Section Mgm2Node.
     Qed.
 
     Lemma hresp_ok s src acc v g : tP s -> Mok2 d src n (M2Answer acc v g) ->
-      rok2 tP O E (handle_response d n enter s src acc v g).
+      rok2 tP Om E (handle_response d n enter s src acc v g).
     Proof.
       intros HP Hm. pose proof HP as (HA & HL & HK & HO & HS). unfold handle_response.
       destruct (negb (opt_is (t_partner s) src) || negb (t_offerer s)).
@@ -718,13 +746,13 @@ Section Mgm2Node.
     Qed.
 
     Lemma hom_ok s : tP s -> (t_offerer s = false -> t_partner s = None) ->
-      zlen nb <= zlen (t_offers s) -> rok2 tP O E (handle_offer_messages d favor n enter s).
+      zlen (nbrs d n) <= zlen (t_offers s) -> rok2 tP Om E (handle_offer_messages d favor n enter s).
     Proof.
       intros HP Hpart Hlen. pose proof HP as (HA & HL & HK & HO & HS). unfold handle_offer_messages. cbv zeta.
       destruct (t_offerer s) eqn:Eo.
       - eapply rok2_andthen; [|apply Henter]. split; [exact HP|split]; cbn [fst snd]; [|constructor].
         apply Forall_forall. intros [t m] Hin. apply in_map_iff in Hin. destruct Hin as (t' & Heq & _).
-        inversion Heq; subst. unfold O. cbn. discriminate.
+        inversion Heq; subst. unfold Om. cbn. discriminate.
       - specialize (Hpart eq_refl).
         destruct (find_best_offer d n s (offering (t_offers s))) as [bests gain] eqn:Ef.
         pose proof (find_best_offer_spec (fun t => let '(vp, vme, p) := t in In vp (dom_of d p) /\ In vme (dom_of d n))
@@ -752,18 +780,18 @@ Section Mgm2Node.
             -- unfold tL. cbn. intros _. exact Hvme.
             -- intros _. right. exact Hlen.
           * apply Forall_forall. intros [t m] Hin. apply in_map_iff in Hin. destruct Hin as (so & Heq & _).
-            cbn in Heq. destruct (fst so =? p) eqn:Ep; inversion Heq; subst; unfold O; cbn; [|discriminate].
+            cbn in Heq. destruct (fst so =? p) eqn:Ep; inversion Heq; subst; unfold Om; cbn; [|discriminate].
             intros _. apply Z.eqb_eq in Ep. rewrite Ep. exists vp. auto.
         + eapply rok2_andthen; [|apply Henter]. eapply rok2_andthen; [|apply send_gain2_ok].
           split; [|split]; cbn [fst snd]; [| |constructor].
           * split; [exact HA|split; [exact HL|split; [|split; [exact HO|exact HS]]]].
             intros _. left. exact Hpart.
           * apply Forall_forall. intros [t m] Hin. apply in_map_iff in Hin. destruct Hin as (so & Heq & _).
-            cbn in Heq. rewrite Hpart in Heq. cbn in Heq. inversion Heq; subst. unfold O. cbn. discriminate.
+            cbn in Heq. rewrite Hpart in Heq. cbn in Heq. inversion Heq; subst. unfold Om. cbn. discriminate.
     Qed.
 
     Lemma on_msg_P s src m : tP s -> Mok2 d src n m ->
-      rok2 tP O E (on_msg d stop thr favor n enter s src m).
+      rok2 tP Om E (on_msg d stop thr favor n enter s src m).
     Proof.
       intros HP Hm. pose proof HP as (HA & HL & HK & HO & HS). unfold on_msg. cbv zeta.
       destruct (negb (t_state s =? kind_of m)).
@@ -784,8 +812,8 @@ Section Mgm2Node.
           - intros Hf. destruct (HK Hf) as [H|H]; [left; exact H|right]. rewrite Hl1. lia.
           - unfold tO, s1. cbn. apply Forall_app. split; [exact HO|]. constructor; [exact Hm|constructor]. }
         destruct (zlen (t_offers s1) =? zlen (nbrs d n)) eqn:El.
-        + apply Z.eqb_eq in El. apply hom_ok; [exact HP1| |unfold nb; lia].
-          intros Hf. destruct (HK Hf) as [H|H]; [exact H|]. unfold nb in H. lia.
+        + apply Z.eqb_eq in El. apply hom_ok; [exact HP1| |lia].
+          intros Hf. destruct (HK Hf) as [H|H]; [exact H|]. lia.
         + apply rok2_ret. exact HP1.
       - apply hresp_ok; assumption.
       - apply hgo_ok; assumption.
@@ -798,7 +826,7 @@ Section Mgm2Node.
     | None => ret2 s
     | Some (rest, (src, m)) =>
         match fuel with
-        | O => (s, [], [EvErr n 7])
+        | 0%nat => (s, [], [EvErr n 7])
         | S f => andthen2 (on_msg d stop thr favor n (enter d stop thr favor n f) (set_post s st rest) src m)
                           (loop d stop thr favor n f st)
         end
@@ -808,8 +836,8 @@ Section Mgm2Node.
   Proof. reflexivity. Qed.
 
   Lemma enter_loop_ok fuel :
-    (forall st s, tP s -> rok2 tP O E (enter d stop thr favor n fuel st s)) /\
-    (forall st s, tP s -> rok2 tP O E (loop d stop thr favor n fuel st s)).
+    (forall st s, tP s -> rok2 tP Om E (enter d stop thr favor n fuel st s)) /\
+    (forall st s, tP s -> rok2 tP Om E (loop d stop thr favor n fuel st s)).
   Proof.
     induction fuel as [|f [IHe IHl]].
     - split; intros st s HP.
@@ -817,7 +845,7 @@ Section Mgm2Node.
       + rewrite loop_eq.
         destruct (pop_last (get_post s st)) as [[rest [src m]]|]; [|apply rok2_ret; exact HP].
         split; [exact HP|split; repeat constructor].
-    - assert (Hl : forall st s, tP s -> rok2 tP O E (loop d stop thr favor n (S f) st s)).
+    - assert (Hl : forall st s, tP s -> rok2 tP Om E (loop d stop thr favor n (S f) st s)).
       { intros st s HP. rewrite loop_eq.
         destruct (pop_last (get_post s st)) as [[rest [src m]]|] eqn:Ep; [|apply rok2_ret; exact HP].
         apply pop_last_spec in Ep.
@@ -829,7 +857,7 @@ Section Mgm2Node.
       intros st s HP. rewrite enter_S. apply IHl. exact HP.
   Qed.
 
-  Lemma enter_ok fuel st s : tP s -> rok2 tP O E (enter d stop thr favor n fuel st s).
+  Lemma enter_ok fuel st s : tP s -> rok2 tP Om E (enter d stop thr favor n fuel st s).
   Proof. apply enter_loop_ok. Qed.
 
   (* the node invariant: not started (state 0, no value) or started with a domain value *)
@@ -838,7 +866,7 @@ Section Mgm2Node.
   Lemma tP_J s : tP s -> tJ s.
   Proof. intros [HA HR]. split; [right; exact HA|exact HR]. Qed.
 
-  Lemma mgm2_start_ok s : tJ s -> rok2 tJ O E (mgm2_start d stop thr favor n s).
+  Lemma mgm2_start_ok s : tJ s -> rok2 tJ Om E (mgm2_start d stop thr favor n s).
   Proof.
     intros [_ HR]. apply rok2_weaken with (P := tP); [exact tP_J|].
     unfold mgm2_start. cbv zeta. destruct (nbrs d n) as [|t nb'].
@@ -867,7 +895,7 @@ Section Mgm2Node.
       apply value_selection2_ok; [exact HR|exact Hv0].
   Qed.
 
-  Lemma mgm2_recv_ok s src m : tJ s -> Mok2 d src n m -> rok2 tJ O E (mgm2_recv d stop thr favor n s src m).
+  Lemma mgm2_recv_ok s src m : tJ s -> Mok2 d src n m -> rok2 tJ Om E (mgm2_recv d stop thr favor n s src m).
   Proof.
     intros [H0 HR] Hm. unfold mgm2_recv.
     destruct H0 as [[Hst Hv]|HA].
@@ -875,7 +903,7 @@ Section Mgm2Node.
       unfold on_msg. cbv zeta. rewrite Hst.
       assert (Hk : negb (0 =? kind_of m) = true) by (destruct m; reflexivity). rewrite Hk.
       apply rok2_ret. split.
-      + left. destruct (set_post_value s (kind_of m) (get_post s (kind_of m) ++ [(src, m)])) as [E1 E2].
+      + left. match goal with |- context [set_post s ?k ?l] => destruct (set_post_value s k l) as [E1 E2] end.
         rewrite E1, E2. auto.
       + apply tR_set_post; [exact HR|]. apply Forall_app. split; [apply tS_get; apply HR|].
         constructor; [exact Hm|constructor].
@@ -883,3 +911,78 @@ Section Mgm2Node.
       apply on_msg_P; [intros k s'; apply enter_ok|split; assumption|exact Hm].
   Qed.
 End Mgm2Node.
+
+Lemma mgm2_net_inv d stop thr favor orc sched :
+  good (tJ d) (Mok2 d) (fst (run (mgm2_proto d stop thr favor orc) sched))
+  /\ Forall (sel_ev d) (snd (run (mgm2_proto d stop thr favor orc) sched)).
+Proof.
+  apply net_inv.
+  - intros n. split; [left; split; reflexivity|].
+    split; [|split; [|split]].
+    + unfold tL. cbn. auto.
+    + intros _. left. reflexivity.
+    + unfold tO. cbn. constructor.
+    + unfold tS. cbn. repeat split; constructor.
+  - intros n s s' outs evs HJ Hs. cbn [p_start mgm2_proto] in Hs.
+    pose proof (mgm2_start_ok d stop thr favor n s HJ) as (H1 & H2 & H3). rewrite Hs in H1, H2, H3.
+    split; [exact H1|split; [exact H2|apply mE_sel_ev with (n := n); exact H3]].
+  - intros n s src m s' outs evs HJ Hm Hs. cbn [p_recv mgm2_proto] in Hs.
+    pose proof (mgm2_recv_ok d stop thr favor n s src m HJ Hm) as (H1 & H2 & H3). rewrite Hs in H1, H2, H3.
+    split; [exact H1|split; [exact H2|apply mE_sel_ev with (n := n); exact H3]].
+Qed.
+
+(* per-node form: only node n has to be well-formed (the values proposed to n by its partners are
+   values of n's domain whatever the partners' variables look like) *)
+Theorem mgm2_selects_in_domain_node : forall d stop thr favor orc sched n, okn d n ->
+  (forall v c k, In (EvValue n v c k) (snd (run (mgm2_proto d stop thr favor orc) sched)) -> In v (dom_of d n)) /\
+  (forall v, t_value (w_st (nodes (fst (run (mgm2_proto d stop thr favor orc) sched)) n)) = Some v -> In v (dom_of d n)).
+Proof.
+  intros d stop thr favor orc sched n Hok.
+  destruct (mgm2_net_inv d stop thr favor orc sched) as [[G _] Fe]. split.
+  - intros v c k Hin. rewrite Forall_forall in Fe. exact (Fe _ Hin Hok).
+  - intros v Hv. destruct (G n) as [[[_ H]|[v' [H1 H2]]] _]; [congruence|].
+    rewrite H1 in Hv. inversion Hv; subst. exact (H2 Hok).
+Qed.
+
+Theorem mgm2_selects_in_domain : forall d stop thr favor orc sched, inst_okn d ->
+  (forall n v c k, In n (map fst (d_vars d)) ->
+     In (EvValue n v c k) (snd (run (mgm2_proto d stop thr favor orc) sched)) -> In v (dom_of d n)) /\
+  (forall n v, In n (map fst (d_vars d)) ->
+     t_value (w_st (nodes (fst (run (mgm2_proto d stop thr favor orc) sched)) n)) = Some v -> In v (dom_of d n)).
+Proof.
+  intros d stop thr favor orc sched Hd. split.
+  - intros n v c k Hn. apply (mgm2_selects_in_domain_node d stop thr favor orc sched n (Hd n Hn)).
+  - intros n v Hn. apply (mgm2_selects_in_domain_node d stop thr favor orc sched n (Hd n Hn)).
+Qed.
+
+(* by-products of the invariant, for every schedule: every OFFER in flight from s to t pairs a
+   value of s with a value of t, every accepting ANSWER carries a value of its destination, and the
+   value a node is about to move to (potential value) is a value of its domain *)
+Corollary mgm2_messages_in_domain d stop thr favor orc sched s t m :
+  In m (chan (fst (run (mgm2_proto d stop thr favor orc) sched)) s t) -> Mok2 d s t m.
+Proof.
+  intros Hin. destruct (mgm2_net_inv d stop thr favor orc sched) as [(_ & _ & G) _].
+  specialize (G s t). rewrite Forall_forall in G. auto.
+Qed.
+
+Corollary mgm2_potential_value_in_domain d stop thr favor orc sched n v : okn d n ->
+  t_pval (w_st (nodes (fst (run (mgm2_proto d stop thr favor orc) sched)) n)) = Some v -> In v (dom_of d n).
+Proof.
+  intros Hok Hv. destruct (mgm2_net_inv d stop thr favor orc sched) as [(G & _) _].
+  destruct (G n) as [_ [HL _]]. unfold tL in HL. rewrite Hv in HL. exact (HL Hok).
+Qed.
+
+Example mgm2_undeclared_refuted :
+  exists d stop thr favor orc sched n v c k, inst_okn d /\
+    In (EvValue n v c k) (snd (run (mgm2_proto d stop thr favor orc) sched)) /\ ~ In v (dom_of d n).
+Proof.
+  exists inst_ex, 0, 500, 0, (fun _ => []), [Start 9], 9, 0.
+  eexists. eexists. split; [exact inst_ok|]. split; [vm_compute; left; reflexivity|vm_compute; tauto].
+Qed.
+
+(* a non-trivial run of the example instance does select values (the theorems are not vacuous) *)
+Example mgm_ex_selects :
+  exists e, In e (snd (run (mgm_proto inst_ex 0 (fun _ => [3; 1; 4])) [Start 0; Start 1])) /\
+            match e with EvValue _ _ _ _ => True | _ => False end.
+Proof. eexists. split; [vm_compute; left; reflexivity|exact I]. Qed.
+
